@@ -16,13 +16,24 @@ try:
 except Exception as _ex:  # the generator itself broke: same fallback as an unparseable source
     LONG_PARAMS_STATUS = "unparsed generator-failed: %s" % str(_ex)[:200]
 
-# a run against a scratch checkout that shares the Coq tree must not leave its fragment behind for other builds
+# round 4: the WHOLE bodies of repr_round_sum / repr_add_large_small / repr_add_small_large / Context::add / sub
+# (coq/gen/FloatAddBodies.v) and of Context::mul / sqr / cubic / repr_div / div / inv / sqrt (coq/gen/FloatOpBodies.v) are
+# regenerated the same way; Float/FixBodiesProof.v proves them equal to the hand-written models for all inputs.
+try:
+    import translate_c03_r4
+    BODIES_STATUS = translate_c03_r4.generate(core.REPO, os.path.join(core.COQ, "gen"))
+except Exception as _ex:
+    BODIES_STATUS = {"FloatAddBodies.v": "unparsed generator-failed: %s" % str(_ex)[:200],
+                     "FloatOpBodies.v": "unparsed generator-failed: %s" % str(_ex)[:200]}
+
+# a run against a scratch checkout that shares the Coq tree must not leave its fragments behind for other builds
 if os.path.realpath(core.REPO) != os.path.realpath("/repo") and "VERIF_COQ" not in os.environ:
     import atexit
 
     def _restore_fragment():
         try:
             translate_c03_r3.generate("/repo", os.path.join(core.COQ, "gen"))
+            translate_c03_r4.generate("/repo", os.path.join(core.COQ, "gen"))
         except Exception:
             pass
 
@@ -31,16 +42,19 @@ if os.path.realpath(core.REPO) != os.path.realpath("/repo") and "VERIF_COQ" not 
 
 def extra_phase(tier, seed, exes, oracle):
     word = LONG_PARAMS_STATUS.split(" ", 1)[0]
-    return {
-        "evaluations": 0,
-        "hist": {"translator_c03_r3:FloatLongParams:" + word: 1},
-        "nontrivial": [],
-        "samples": [{"fragment": "coq/gen/FloatLongParams.v (tools/translate_c03_r3.py from float/src/mul.rs, root.rs, div.rs, add.rs)",
-                     "status": LONG_PARAMS_STATUS,
-                     "tied_by": "C03_long_source_constants" if word == "ok"
-                                else "correspondence run only (source not parsed; previous copy marked STALE)"}],
-        "failures": [],
-    }
+    hist = {"TRANSLATOR_C03_R3:FloatLongParams:" + word: 1}
+    samples = [{"fragment": "coq/gen/FloatLongParams.v (tools/translate_c03_r3.py from float/src/mul.rs, root.rs, div.rs, add.rs)",
+                "status": LONG_PARAMS_STATUS,
+                "tied_by": "C03_long_source_constants (a part whose source fragment no longer exists - the pre-shrinking of mul.rs, "
+                           "the single expansion step of repr_round_sum, both removed by the round-4 repairs - keeps its last copy)"}]
+    for fname, st in sorted(BODIES_STATUS.items()):
+        w = st.split(" ", 1)[0]
+        hist["TRANSLATOR_C03_R4:%s:%s" % (fname[:-2], w)] = 1
+        samples.append({"fragment": "coq/gen/%s (tools/translate_c03_r4.py: whole function bodies)" % fname,
+                        "status": st,
+                        "tied_by": ("C03_add_bodies_regenerated" if "Add" in fname else "C03_op_bodies_regenerated") if w == "ok"
+                                   else "correspondence run only (source not parsed; previous copy marked STALE)"})
+    return {"evaluations": 0, "hist": hist, "nontrivial": [], "samples": samples, "failures": []}
 
 
 ID = "C03"
